@@ -1,5 +1,52 @@
-import Secp.Hand.History
-/-! # C08 — placeholder: theorems are being added in this session -/
+import Secp.Proofs.HashToGroup
+/-!
+# C08 — HashToGroup / EncodeToGroup conform to RFC 9380 for every message and DST
+
+Model of the code: `Hand.Group.{hashToGroup,encodeToGroup}` = the expander model (`expandXMD`: b_0, b_1, xor chaining,
+DST′, oversize-DST rule, zero-length DST → panic = `none`), the 48-byte wide reduction to a field element, then
+`hashToGroupCore` / `encodeToGroupCore`: the *generated* `SSWU` and isogeny and — after the repair of defect F7
+(commit 71c669f) — the generated complete addition of the two mapped points. Specification: `Spec.Rfc9380`
+(`hash_to_curve`, `encode_to_curve` for the suites secp256k1_XMD:SHA-256_SSWU_RO_/NU_), independent of the code's
+structure; the sum in `hash_to_curve` is the textbook affine addition on secp256k1, shown to be Mathlib's group law.
+`H` is any hash function with 32-byte output (SHA-256 in the real program; see the trusted base).
+`affPtG limbLawful R` is the abstract affine point of the result, so equality of it with the specification point is
+equality of the canonical encodings (C04).
+-/
 namespace C08
-theorem model_is_total : True := trivial
+open Spec Spec.Rfc9380
+
+/-- **HashToGroup = hash_to_curve** for every message and every non-empty DST of any length; the result is a valid
+group element and (being a function of `(msg, dst)`) deterministic -/
+theorem hashToGroup_conforms (H : Bytes → Bytes) (hH : HashOK H) (msg dst : Bytes) (hd : dst ≠ []) :
+    ∃ R, Hand.Group.hashToGroup H msg dst = some R ∧ PtValid limbLawful R ∧
+      affPtG limbLawful R = hashToCurve H msg dst := hashToGroup_spec H hH msg dst hd
+
+/-- **EncodeToGroup = encode_to_curve** -/
+theorem encodeToGroup_conforms (H : Bytes → Bytes) (hH : HashOK H) (msg dst : Bytes) (hd : dst ≠ []) :
+    ∃ R, Hand.Group.encodeToGroup H msg dst = some R ∧ PtValid limbLawful R ∧
+      affPtG limbLawful R = encodeToCurve H msg dst := encodeToGroup_spec H hH msg dst hd
+
+/-- an empty or nil DST panics instead of hashing -/
+theorem empty_dst_panics (H : Bytes → Bytes) (msg : Bytes) :
+    Hand.Group.hashToGroup H msg [] = none ∧ Hand.Group.encodeToGroup H msg [] = none := by
+  unfold Hand.Group.hashToGroup Hand.Group.encodeToGroup
+  rw [expandXMD_empty, expandXMD_empty]
+  exact ⟨rfl, rfl⟩
+
+/-- the expander is `expand_message_xmd`, including DSTs longer than 255 bytes (oversize rule) -/
+theorem expander_is_rfc (H : Bytes → Bytes) (msg dst : Bytes) (len : Nat) (hd : dst ≠ []) (hl : (len + 31) / 32 ≤ 255) :
+    Hand.Group.expandXMD H msg dst len = some (expandMessageXmd H msg dst len) := expandXMD_eq H msg dst len hd hl
+
+/-- the 48-byte wide reduction is `OS2IP mod p` -/
+theorem wide_reduction (input : Bytes) (hb : IsBytes input) (hl : input.length = 48) :
+    limbOk (Hand.Fp.hashToFieldElement input) ∧ limbVal (Hand.Fp.hashToFieldElement input) = ((os2ip input : Nat) : ZMod P) :=
+  fp_hashToField input hb hl
+
+/-- the affine sum used by the specification is the group law (so `hash_to_curve` adds in the group) -/
+theorem spec_sum_is_group_law (a b : APoint) (ha : SpecPt a) (hb : SpecPt b) :
+    SpecPt (padd a b) ∧ iota (padd a b) = iota a + iota b := padd_spec a b ha hb
+
+example : HashOK (fun _ => List.replicate 32 7) := ⟨fun _ => by simp, fun _ x hx => by
+  rw [List.mem_replicate] at hx; omega⟩
+
 end C08
